@@ -54,6 +54,14 @@ type verifEngC struct {
 	released  int
 	failFired bool
 	ranKinds  []string // do-handlers whose body completed in the current change, in order
+	// a backend operation of the do direction fails: the opErrAt-th one that
+	// reports errors, counted from the start of the change (-1: off)
+	opErrAt    int
+	opErrSeen  int
+	opErrFired bool
+	failedOps  map[int]bool // indices into fakeBackend.ops of operations that reported an injected error
+	curWhich   string
+	curKind    string
 	body      func(s *verifEngC, c *check.C)
 	permute   bool
 	revertedNotBlocked map[int]bool
@@ -196,7 +204,9 @@ func (s *verifEngC) settle(abortChg *state.Change, chgs ...*state.Change) bool {
 		if p.which == "do" {
 			s.released++
 		}
+		s.curWhich, s.curKind = p.which, p.kind
 		s.releaseParked(p, fail)
+		s.curWhich, s.curKind = "", ""
 	}
 	return false
 }
@@ -230,7 +240,11 @@ func (s *verifEngC) world(initial *verifWorld) *verifWorld {
 	s.fakeBackend.mu.Lock()
 	ops := append(fakeOps(nil), s.fakeBackend.ops...)
 	s.fakeBackend.mu.Unlock()
-	for _, op := range ops {
+	for i, op := range ops {
+		if s.failedOps[i] {
+			// the backend reported an (injected) error for it: it did not happen
+			continue
+		}
 		switch op.op {
 		case "setup-snap":
 			if w.mounted[op.name] == nil {
@@ -337,6 +351,24 @@ func verifBodyHistory(s *verifEngC, gc *check.C) {
 	defer release.MockOnClassic(onClassic)()
 	s.wrapHandlers()
 	defer s.releaseAll()
+	s.opErrAt, s.failedOps = -1, map[int]bool{}
+	s.fakeBackend.maybeInjectErr = func(op *fakeOp) error {
+		if s.opErrAt < 0 || s.opErrFired || s.failFired || s.curWhich != "do" || s.curKind == "check-rerefresh" {
+			return nil
+		}
+		s.opErrSeen++
+		if s.opErrSeen <= s.opErrAt {
+			return nil
+		}
+		s.opErrFired, s.failFired = true, true
+		s.failedOps[len(s.fakeBackend.ops)-1] = true
+		c.Logf("backend operation %s (in do %s) reports an error", op.op, s.curKind)
+		c.Count("fault:backend-op-error")
+		c.Count("fault:backend-op-error:" + op.op)
+		c.Nontrivial()
+		return errors.New("verif: injected backend error in " + op.op)
+	}
+	defer func() { s.fakeBackend.maybeInjectErr = nil }()
 
 	// initial installation: 1-3 kept revisions, current is any of them
 	initial := &verifWorld{mounted: map[string]map[int]bool{"core": {1: true}}, linked: map[string]int{"core": 1}}
@@ -537,14 +569,20 @@ func verifBodyHistory(s *verifEngC, gc *check.C) {
 		nTasks := len(ts.Tasks())
 		// fault plan for this change
 		s.failNth, s.failKind, s.released, s.failFired, s.ranKinds = -1, "", 0, false, nil
+		s.opErrAt, s.opErrSeen, s.opErrFired = -1, 0, false
 		var abortChg *state.Change
 		s.fakeBackend.linkSnapFailTrigger = ""
 		s.fakeBackend.copySnapDataFailTrigger = ""
 		delete(s.fakeStore.downloadError, verifSnapName)
 		faulted := false
-		if faultsOn && (kind == "install" || kind == "refresh" || kind == "revert") && c.Draw("fail-this-op", 5) >= 3 {
+		// (C11 is about every settled change: there every kind of operation may fail)
+		if faultsOn && (kind == "install" || kind == "refresh" || kind == "revert" || c.Prop == "C11") && c.Draw("fail-this-op", 5) >= 3 {
 			faulted = true
-			switch c.Draw("fault-kind", 6) {
+			switch c.Draw("fault-kind", 8) {
+			case 6, 7:
+				// a backend operation inside some do handler reports an error
+				s.opErrAt = c.Draw("fail-at-backend-op", nTasks)
+				c.Count("fault:backend-op-error-armed")
 			case 0, 1, 2:
 				// any task of the change; the later half twice as likely (undo after link-snap)
 				s.failNth = c.Draw("fail-at-handler", nTasks+nTasks/2)
@@ -571,7 +609,16 @@ func verifBodyHistory(s *verifEngC, gc *check.C) {
 		st.Unlock()
 		c.Logf("op %d: %s with kept=%v current=%d active=%v retain=%d (%d tasks)", i, desc, bseq, before.Current.N, before.Active, retainCfg, nTasks)
 		if !s.settle(abortChg, chg) {
-			c.Violate(c.Prop+"/change-does-not-settle", "%s did not settle within the step bound", desc)
+			st.Lock()
+			dump := ""
+			for _, t := range chg.Tasks() {
+				dump += fmt.Sprintf(" %s:%s=%v", t.ID(), t.Kind(), t.Status())
+				for _, wt := range t.WaitTasks() {
+					dump += "<" + wt.ID()
+				}
+			}
+			st.Unlock()
+			c.Violate(c.Prop+"/change-does-not-settle", "%s did not settle within the step bound:%s", desc, dump)
 			return
 		}
 		st.Lock()
